@@ -407,6 +407,12 @@ class H:
     def abs(self, x):
         return abs(x)
 
+    def opaque_inverse(self):
+        """numpy.linalg.inv as a bare uninterpreted function of its argument (no A.X=I
+        axioms): enough when code and spec invert the same matrices; keeps queries linear"""
+        if self.mode == "sym":
+            core.ctx().memo["opaque_inverse"] = True
+
     def trust(self, text):
         if self.mode == "sym":
             core.ctx().trusted.add(text)
